@@ -34,3 +34,141 @@ package compile
 //@   arith bv
 //@   bodyensures 1 step: entry.pc == dec_pc(old(entry.pc), x) && entry.line == dec_line(old(entry.line), x) && entry.col == dec_col(old(entry.col), x)
 //@   assert /fn.lnt = append\(fn.lnt, entry\)/ only_complete_rows: (x & 1) == 0
+
+// ---- serialization (C17). Ghost tapes: tape.P of an encoder/decoder object is the sequence of
+// varint tokens of its program section, tape.S the sequence of chunks of its string section
+// (a chunk is identified by strid/bytesid). They are prophecy arrays: fixed for the life of the
+// object (the final contents of the sections); a write at cursor np asserts "cell np holds x",
+// a read at cursor ip returns cell ip. np/ns (encoder) and ip/is (decoder) only ever grow, so
+// every cell is written once. The byte-level primitives are trusted against encoding/binary;
+// everything above them is verified against the layout predicates below, which the encoder
+// must establish and the decoder must reproduce.
+//@ ghostarray tape.P int
+//@ ghostarray tape.S int
+//@ ghostfield go.starlark.net/internal/compile.encoder.np int
+//@ ghostfield go.starlark.net/internal/compile.encoder.ns int
+//@ ghostfield go.starlark.net/internal/compile.decoder.ip int
+//@ ghostfield go.starlark.net/internal/compile.decoder.is int
+//@ specfn tp(t any, i int) int = gelem(tape.P, t, i)
+//@ specfn ts(t any, i int) int = gelem(tape.S, t, i)
+
+// Ident record: 3 varint tokens (name length, line, col) and 1 chunk (name)
+//@ specfn layBinding(t any, p int, s int, b any) bool = tp(t, p) == len(b.Name) && ts(t, s) == strid(b.Name) && wrap32(tp(t, p + 1)) == b.Pos.Line && wrap32(tp(t, p + 2)) == b.Pos.Col
+//@ specfn layBindings(t any, p int, s int, bs any) bool = tp(t, p) == len(bs) && forall(j, 0, len(bs), layBinding(t, p + 1 + 3 * j, s + j, bs[j]))
+// Funcode record, field by field in file order (see the format comment in serial.go)
+//@ specfn qLocals(fn any, p int) int = p + 6 + len(fn.pclinetab)
+//@ specfn qCells(fn any, p int) int = qLocals(fn, p) + 1 + 3 * len(fn.Locals)
+//@ specfn qFree(fn any, p int) int = qCells(fn, p) + 1 + len(fn.Cells)
+//@ specfn qTail(fn any, p int) int = qFree(fn, p) + 1 + 3 * len(fn.FreeVars)
+//@ specfn lenP(fn any) int = qTail(fn, 0) + 5
+//@ specfn lenS(fn any) int = 3 + len(fn.Locals) + len(fn.FreeVars)
+//@ specfn layHead(t any, p int, s int, fn any) bool = tp(t, p) == len(fn.Name) && ts(t, s) == strid(fn.Name) && wrap32(tp(t, p + 1)) == fn.Pos.Line && wrap32(tp(t, p + 2)) == fn.Pos.Col && tp(t, p + 3) == len(fn.Doc) && ts(t, s + 1) == strid(fn.Doc) && tp(t, p + 4) == len(fn.Code) && ts(t, s + 2) == bytesid(fn.Code) && tp(t, p + 5) == len(fn.pclinetab)
+//@ specfn layPcl(t any, p int, fn any, n int) bool = forall(j, 0, n, wrapu16(tp(t, p + 6 + j)) == fn.pclinetab[j])
+//@ specfn layCells(t any, p int, fn any, n int) bool = tp(t, qCells(fn, p)) == len(fn.Cells) && forall(j, 0, n, tp(t, qCells(fn, p) + 1 + j) == fn.Cells[j])
+//@ specfn layTail(t any, p int, fn any) bool = tp(t, qTail(fn, p)) == fn.MaxStack && tp(t, qTail(fn, p) + 1) == fn.NumParams && tp(t, qTail(fn, p) + 2) == fn.NumKwonlyParams && (tp(t, qTail(fn, p) + 3) != 0 <==> fn.HasVarargs) && (tp(t, qTail(fn, p) + 4) != 0 <==> fn.HasKwargs)
+//@ specfn layFuncode(t any, p int, s int, fn any) bool = layHead(t, p, s, fn) && layPcl(t, p, fn, len(fn.pclinetab)) && layBindings(t, qLocals(fn, p), s + 3, fn.Locals) && layCells(t, p, fn, len(fn.Cells)) && layBindings(t, qFree(fn, p), s + 3 + len(fn.Locals), fn.FreeVars) && layTail(t, p, fn)
+
+// -- encoder primitives (trusted: encoding/binary.PutVarint / append to the string section)
+//@ func encoder.int64
+//@   trusted encoding/binary.PutVarint appends one varint token
+//@   modifies e.np, e.p
+//@   ensures e.np == old(e.np) + 1 && tp(e, old(e.np)) == x
+//@ func encoder.uint64
+//@   trusted encoding/binary.PutUvarint appends one varint token
+//@   modifies e.np, e.p
+//@   ensures e.np == old(e.np) + 1 && tp(e, old(e.np)) == x
+//@ func encoder.string
+//@   trusted appends len(s) to the varint section and the bytes of s to the string section
+//@   modifies e.np, e.ns, e.p, e.s
+//@   ensures e.np == old(e.np) + 1 && e.ns == old(e.ns) + 1 && tp(e, old(e.np)) == len(s) && ts(e, old(e.ns)) == strid(s)
+//@ func encoder.bytes
+//@   trusted appends len(b) to the varint section and b to the string section
+//@   modifies e.np, e.ns, e.p, e.s
+//@   ensures e.np == old(e.np) + 1 && e.ns == old(e.ns) + 1 && tp(e, old(e.np)) == len(b) && ts(e, old(e.ns)) == bytesid(b)
+// -- encoder, verified
+//@ func encoder.int
+//@   prop C17
+//@   modifies e.np, e.p
+//@   ensures e.np == old(e.np) + 1 && tp(e, old(e.np)) == x
+//@ func encoder.binding
+//@   prop C17
+//@   modifies e.np, e.ns, e.p, e.s
+//@   ensures e.np == old(e.np) + 3 && e.ns == old(e.ns) + 1 && layBinding(e, old(e.np), old(e.ns), bind)
+//@ func encoder.bindings
+//@   prop C17
+//@   modifies e.np, e.ns, e.p, e.s
+//@   invariant 1 rangeindex >= -1 && rangeindex + 1 <= len(binds) && e.np == old(e.np) + 1 + 3 * (rangeindex + 1) && e.ns == old(e.ns) + rangeindex + 1 && tp(e, old(e.np)) == len(binds) && forall(j, 0, rangeindex + 1, layBinding(e, old(e.np) + 1 + 3 * j, old(e.ns) + j, binds[j]))
+//@   ensures e.np == old(e.np) + 1 + 3 * len(binds) && e.ns == old(e.ns) + len(binds) && layBindings(e, old(e.np), old(e.ns), binds)
+//@ func encoder.function
+//@   prop C17
+//@   modifies e.np, e.ns, e.p, e.s
+//@   invariant 1 rangeindex >= -1 && rangeindex + 1 <= len(fn.pclinetab) && e.np == old(e.np) + 6 + rangeindex + 1 && e.ns == old(e.ns) + 3 && layHead(e, old(e.np), old(e.ns), fn) && layPcl(e, old(e.np), fn, rangeindex + 1)
+//@   invariant 2 rangeindex >= -1 && rangeindex + 1 <= len(fn.Cells) && e.np == qCells(fn, old(e.np)) + 1 + rangeindex + 1 && e.ns == old(e.ns) + 3 + len(fn.Locals) && layHead(e, old(e.np), old(e.ns), fn) && layPcl(e, old(e.np), fn, len(fn.pclinetab)) && layBindings(e, qLocals(fn, old(e.np)), old(e.ns) + 3, fn.Locals) && layCells(e, old(e.np), fn, rangeindex + 1)
+//@   ensures e.np == old(e.np) + lenP(fn) && e.ns == old(e.ns) + lenS(fn)
+//@   ensures record: layFuncode(e, old(e.np), old(e.ns), fn)
+//@ func b2i
+//@   prop C17
+//@   pure
+//@   ensures (b ==> result == 1) && (!b ==> result == 0)
+
+// -- decoder primitives (trusted: encoding/binary.Varint, unsafe string aliasing)
+//@ func decoder.int64
+//@   trusted encoding/binary.Varint consumes one varint token
+//@   modifies d.ip, d.p
+//@   ensures d.ip == old(d.ip) + 1 && result == tp(d, old(d.ip))
+//@ func decoder.uint64
+//@   trusted encoding/binary.Uvarint consumes one varint token
+//@   modifies d.ip, d.p
+//@   ensures d.ip == old(d.ip) + 1 && result == tp(d, old(d.ip))
+//@ func decoder.bytes
+//@   trusted consumes a length token and that many bytes of the string section
+//@   modifies d.ip, d.is, d.p, d.s
+//@   ensures d.ip == old(d.ip) + 1 && d.is == old(d.is) + 1 && len(result) == tp(d, old(d.ip)) && bytesid(result) == ts(d, old(d.is))
+//@ func decoder.string
+//@   trusted unsafe.String over the bytes returned by decoder.bytes
+//@   modifies d.ip, d.is, d.p, d.s
+//@   ensures d.ip == old(d.ip) + 1 && d.is == old(d.is) + 1 && len(result) == tp(d, old(d.ip)) && strid(result) == ts(d, old(d.is))
+// -- decoder, verified: what is read back satisfies the same layout predicates
+//@ func decoder.int
+//@   prop C17
+//@   modifies d.ip, d.p
+//@   ensures d.ip == old(d.ip) + 1 && result == tp(d, old(d.ip))
+//@ func decoder.bool
+//@   prop C17
+//@   modifies d.ip, d.p
+//@   ensures d.ip == old(d.ip) + 1 && (result <==> tp(d, old(d.ip)) != 0)
+//@ func decoder.binding
+//@   prop C17
+//@   modifies d.ip, d.is, d.p, d.s
+//@   ensures d.ip == old(d.ip) + 3 && d.is == old(d.is) + 1 && layBinding(d, old(d.ip), old(d.is), result)
+//@ func decoder.bindings
+//@   prop C17
+//@   modifies d.ip, d.is, d.p, d.s
+//@   invariant 1 rangeindex >= -1 && rangeindex + 1 <= len(bindings) && len(bindings) == tp(d, old(d.ip)) && d.ip == old(d.ip) + 1 + 3 * (rangeindex + 1) && d.is == old(d.is) + rangeindex + 1 && freshobj(bindings) && forall(j, 0, rangeindex + 1, layBinding(d, old(d.ip) + 1 + 3 * j, old(d.is) + j, bindings[j]))
+//@   ensures d.ip == old(d.ip) + 1 + 3 * len(result) && d.is == old(d.is) + len(result) && layBindings(d, old(d.ip), old(d.is), result)
+//@ func decoder.ints
+//@   prop C17
+//@   modifies d.ip, d.p
+//@   invariant 1 rangeindex >= -1 && rangeindex + 1 <= len(ints) && len(ints) == tp(d, old(d.ip)) && d.ip == old(d.ip) + 1 + rangeindex + 1 && freshobj(ints) && forall(j, 0, rangeindex + 1, ints[j] == tp(d, old(d.ip) + 1 + j))
+//@   ensures d.ip == old(d.ip) + 1 + len(result) && len(result) == tp(d, old(d.ip)) && forall(j, 0, len(result), result[j] == tp(d, old(d.ip) + 1 + j))
+//@ func decoder.function
+//@   prop C17
+//@   modifies d.ip, d.is, d.p, d.s
+//@   invariant 1 rangeindex >= -1 && rangeindex + 1 <= len(pclinetab) && len(pclinetab) == tp(d, old(d.ip) + 5) && freshobj(pclinetab) && d.ip == old(d.ip) + 6 + rangeindex + 1 && d.is == old(d.is) + 3 && layBinding(d, old(d.ip), old(d.is), id) && tp(d, old(d.ip) + 3) == len(doc) && ts(d, old(d.is) + 1) == strid(doc) && tp(d, old(d.ip) + 4) == len(code) && ts(d, old(d.is) + 2) == bytesid(code) && forall(j, 0, rangeindex + 1, wrapu16(tp(d, old(d.ip) + 6 + j)) == pclinetab[j])
+//@   ensures result != nil && d.ip == old(d.ip) + lenP(result) && d.is == old(d.is) + lenS(result)
+//@   ensures record: layFuncode(d, old(d.ip), old(d.is), result)
+
+// -- constants: encoder and decoder agree, iteration by iteration, on the kind tag and payload
+//    kind: 0 string, 1 bytes, 2 int64, 3 float64 (IEEE bits), 4 big int (decimal text)
+//@ func Program.Encode
+//@   prop C17
+//@   bodyensures 2 string_const: typeis(prog.Constants[rangeindex + 1], string) ==> tp(e, old(e.np)) == 0 && tp(e, old(e.np) + 1) == len(as(prog.Constants[rangeindex + 1], string)) && ts(e, old(e.ns)) == strid(as(prog.Constants[rangeindex + 1], string)) && e.np == old(e.np) + 2 && e.ns == old(e.ns) + 1
+//@   bodyensures 2 bytes_const: typeis(prog.Constants[rangeindex + 1], Bytes) ==> tp(e, old(e.np)) == 1 && tp(e, old(e.np) + 1) == len(as(prog.Constants[rangeindex + 1], Bytes)) && ts(e, old(e.ns)) == strid(as(prog.Constants[rangeindex + 1], Bytes)) && e.np == old(e.np) + 2 && e.ns == old(e.ns) + 1
+//@   bodyensures 2 int_const: typeis(prog.Constants[rangeindex + 1], int64) ==> tp(e, old(e.np)) == 2 && tp(e, old(e.np) + 1) == as(prog.Constants[rangeindex + 1], int64) && e.np == old(e.np) + 2 && e.ns == old(e.ns)
+//@   bodyensures 2 float_const: typeis(prog.Constants[rangeindex + 1], float64) ==> tp(e, old(e.np)) == 3 && tp(e, old(e.np) + 1) == fbits(as(prog.Constants[rangeindex + 1], float64)) && e.np == old(e.np) + 2 && e.ns == old(e.ns)
+//@ func DecodeProgram
+//@   prop C17
+//@   bodyensures 2 string_const: tp(d, old(d.ip)) == 0 ==> typeis(constants[rangeindex + 1], string) && strid(as(constants[rangeindex + 1], string)) == ts(d, old(d.is)) && d.ip == old(d.ip) + 2 && d.is == old(d.is) + 1
+//@   bodyensures 2 bytes_const: tp(d, old(d.ip)) == 1 ==> typeis(constants[rangeindex + 1], Bytes) && strid(as(constants[rangeindex + 1], Bytes)) == ts(d, old(d.is)) && d.ip == old(d.ip) + 2 && d.is == old(d.is) + 1
+//@   bodyensures 2 int_const: tp(d, old(d.ip)) == 2 ==> typeis(constants[rangeindex + 1], int64) && as(constants[rangeindex + 1], int64) == tp(d, old(d.ip) + 1) && d.ip == old(d.ip) + 2 && d.is == old(d.is)
+//@   bodyensures 2 float_const: tp(d, old(d.ip)) == 3 ==> typeis(constants[rangeindex + 1], float64) && fbits(as(constants[rangeindex + 1], float64)) == tp(d, old(d.ip) + 1) && d.ip == old(d.ip) + 2 && d.is == old(d.is)
